@@ -703,7 +703,10 @@ func (p *printer) arithExp(w *ast.ArithExp) {
 
 func (p *printer) arithExpr(list bool, left string, x ast.Word) {
 	p.w.WriteString(left)
+	base := p.base
 	if !list {
+		// here-documents of the enclosing line follow that line
+		p.base = len(p.stack)
 		p.lv++
 		p.newline()
 		p.indent()
@@ -720,6 +723,7 @@ func (p *printer) arithExpr(list bool, left string, x ast.Word) {
 		p.lv--
 		p.newline()
 		p.indent()
+		p.base = base
 	}
 	p.w.WriteString("))")
 }
